@@ -82,8 +82,9 @@ def slice_nf(e, data):
     """a sub-slice of `data` in normal form (lo, hi) with hi = None for "to the end": &data[lo..], &data[..hi], &data[lo..hi],
     data.split_at(k).0 / .1, data itself; None if e is something else"""
     e = strip_ref(e)
-    while e[0] in ('deref', 'ref'):
-        e = strip_ref(e[1])
+    while e[0] in ('deref', 'ref') or (e[0] == 'call' and (e[1] or '') == 'core::str::<impl str>::as_bytes' and len(e[2]) == 1):
+        # the bytes of a str are the str (positions and lengths are the same)
+        e = strip_ref(e[1] if e[0] != 'call' else e[2][0])
     if e == data:
         return (C(0), None)
     ix = index_from(e)
